@@ -48,7 +48,7 @@ def catalogue():
     out += [['qty', 1.0, ''], ['qty', 1.0, None], ['bool', True], ['bool', False], ['marker'], ['na'], ['remove'], ['null']]
     out += [['xstr', 'hex', '00'], ['xstr', 'b64', 'AA=='], ['xstr', 'Bar', 'x'], ['xstr', 'hex', 'deadbeef']]
     out += [['date', 2020, 1, 1], ['date', 2020, 1, 2], ['time', 1, 2, 3, 0], ['time', 1, 2, 3, 1], ['time', 1, 2, 4, 0],
-            ['coord', 1.0, 2.0], ['coord', 1.0, 2.5], ['coord', 2.0, 1.0],
+            ['coord', 1.0, 2.0], ['coord', 1.0, 2.5], ['coord', 2.0, 1.0], ['coord', 1.0, 2.0000001], ['coord', 1.0000004, 2.0],
             ['dt', '2020-01-01T00:00:00.000000', 0, 'UTC'], ['dt', '2020-01-01T00:00:00.000000', 0, 'London'],
             ['dt', '2020-01-01T00:00:00.000000', -18000, 'New_York'], ['dt', '2020-01-01T00:00:01.000000', 0, 'UTC'],
             ['dt', '2020-01-01T00:00:00.000000', 3600, None]]
